@@ -126,6 +126,33 @@ func runC20(c *mon.Ctx) {
 				}
 			}
 		}
+		// one packet that ends two units: on PID 0 a section announces more bytes than its packet holds and stays pending; the next
+		// packet starts a new unit and is complete at once, so it flushes the pending one (a parse error) and completes its own, which
+		// is handed out by the following call. A Rewind between those two calls must not leave the second unit behind
+		if i%4 == 1 {
+			b := append([]byte{}, s.Bytes...)
+			pat := gen.SimpleSection(r, refts.KindPAT, 1+r.IntN(30), 0)
+			pat.Syntax.Data.PAT.Programs = []*astits.PATProgram{{ProgramNumber: 1 + uint16(r.IntN(100)), ProgramMapID: 0x1ff0 + uint16(r.IntN(8))}}
+			whole := gen.NewPSIUnit(r, 0, 1, []*astits.PSISection{pat}, 0, false).Payload
+			trunc := append([]byte{0, 0x00, 0xb1, 0x2c}, gen.Bytes(r, 180)...) // pointer_field 0, table_id 0, section_length 300
+			cc := uint8(r.IntN(16))
+			for q, pay := range [][]byte{trunc, whole, whole, trunc, whole} {
+				e, _ := refts.EncodePacket(gen.BuildPacket(0, cc+uint8(q), true, pay, nil, true), nil)
+				b = append(b, e...)
+			}
+			sv := &gen.Stream{Units: s.Units, Packets: s.Packets, Owner: s.Owner, Bytes: b}
+			for _, api := range []string{"data", "alt"} {
+				cfg := DemuxCfg{PacketSize: 188, Reader: "seek", API: api}
+				fresh := RunDemux(b, cfg)
+				if fresh.Panic != "" {
+					continue
+				}
+				for kk := 0; kk <= fresh.Calls; kk++ {
+					rewindCase(c, "streams", i, sv, m, cfg, fresh, kk, -1)
+					c.Count("rewinds_on_streams_where_one_packet_ends_two_units")
+				}
+			}
+		}
 		// the configuration must survive a rewind too: an explicit packet size on inputs where auto-detection would decide otherwise
 		// (188+k framing whose extra bytes hold sync bytes; a single packet, which is too short to detect anything)
 		if i%3 == 0 {
